@@ -163,7 +163,8 @@ def main(run, tier):
     rules = importlib.import_module('calmjs.parse.rules')
     obfmod = importlib.import_module('calmjs.parse.handlers.obfuscation')
     mods = (es5, unparsers, lexmod, rules)
-    run.explanation = ('bounded stand-in: the obfuscating printers are run on scoping programs (closures, hoisting, parameters, function '
+    run.explanation = ('per-function contracts on the renaming machinery (symbol tables over arbitrary sets, marker handlers, name assignment) '
+                       'discharged by z3; whole-program capture freedom by bounded stand-in: the obfuscating printers are run on scoping programs (closures, hoisting, parameters, function '
                        'names, nested catch, labels, getters/setters, hundreds of names) and the output is re-parsed; an independent '
                        'ES5 scope resolver (spec/scopes.py) must find the same binding structure, free/property/top-level names '
                        'unchanged, no reserved word generated; marker-order obligations on the definitions and constant obligations '
@@ -173,7 +174,9 @@ def main(run, tier):
     # ---- E1: the renaming functions (contracts/obfuscation.py)
     from ..e1run import verify_functions
     import contracts.obfuscation as cob
-    verify_functions(run, cob.build(obfmod), {}, {}, tier=tier)
+    import contracts.scopes as csc
+    import contracts.obfuscator as cobf
+    verify_functions(run, cob.build(obfmod) + csc.build(obfmod) + cobf.build(obfmod), {}, {}, tier=tier)
     name_generator_obligation(run, obfmod, lexmod, tier)
     # what the obfuscation rule set plugs into a printer: the identifier resolver, its token handler and the pre-walk -- nothing that
     # could alter any other token ("differs only in identifier spellings")
@@ -332,10 +335,16 @@ def main(run, tier):
     run.bounded_check('rt.obfuscate', '%d scoping programs (incl. scopes with 60-300 names; 3000 in thorough) x 12 printer configurations; '
                       'reused printer objects' % len(progs), n)
     run.trust('spec/scopes.py (independent ES5 scope resolution) as the oracle', 'C02 for the non-identifier tokens')
-    run.assume('under contract (E1): Obfuscator.resolve / finalize, Scope.resolve, Scope / CatchScope.build_remap_symbols (which symbols get '
-               'which generated name); NOT under contract: the reserved set computed by Scope._reserved_symbols (set algebra over the '
-               'scope tree) and hence capture freedom as a whole, Scope.declare/reference/close, the event order of Obfuscator.walk -- '
-               'bounded only, against spec/scopes.py', 'NameGenerator: distinctness / skip of the first names only (bounded prefix)',
+    run.assume('under contract (E1): Obfuscator.resolve / finalize / every marker handler / walk (handler tables) / prewalk_hook / __init__, '
+               'Scope.resolve, Scope / CatchScope.build_remap_symbols (which symbols get which generated name), and the symbol tables for '
+               'arbitrary set contents: declare, reference, close, declared / global / non-local / leaked symbols, global symbols of the '
+               'children, _reserved_symbols (contains every free name used here or below and the new name of every outer symbol used '
+               'here), construction and nesting of scopes; neighbours of a scope (parent, children) are doubles with arbitrary sets '
+               '(induction hypothesis over the scope tree).  NOT proved: the composition of these contracts into capture freedom of a '
+               'whole program (order of marker events along the walk; that close() has propagated every use below before the reserved '
+               'set is read) -- bounded only, against spec/scopes.py; CatchScope.declare has no contract (known finding F15 lives there)',
+               'set images ({resolve(v) for v in ...}) are known from below only; dict iteration visits items of the dict (model)',
+               'NameGenerator: distinctness / skip of the first names only (bounded prefix)',
                'programs using `with` or direct eval are out of scope')
 
 
